@@ -1,6 +1,5 @@
 import LasioModel.Data
 import LasioProofs.Lemmas.DataLemmas
-import LasioProofs.Props.C07
 /-
 C02 — the numpy engine and the normal engine give the same curves on plain data sections.
 
@@ -28,304 +27,15 @@ most one `.` and no digit immediately before a `-` is quiet — this covers ever
 -/
 namespace Lasio.Dt
 
-/-! ### the domain -/
-
-/-- `Body c body rows`: the body lines are blank lines, comment lines and data lines of `c` quiet tokens; `rows` are the token
-rows of the data lines in order -/
-inductive Body (c : Nat) : List Str → List (List Str) → Prop
-  | nil : Body c [] []
-  | skip {ln : Str} {ls : List Str} {rows : List (List Str)} : SkipLine ln → Body c ls rows → Body c (ln :: ls) rows
-  | row {ln : Str} {toks : List Str} {ls : List Str} {rows : List (List Str)} :
-      RowLine toks ln → toks.length = c → Body c ls rows → Body c (ln :: ls) (toks :: rows)
-
-structure PlainData (ft : FloatTable) (body after : List Str) (c : Nat) (rows : List (List Str)) : Prop where
-  body : Body c body rows
-  cpos : 0 < c
-  rne : rows ≠ []
-  /-- end of file, or a next line whose first token is not a number (a `~` title line) -/
-  next : after = [] ∨ ∃ ln rest t ts, after = ln :: rest ∧ npTokens ln = t :: ts ∧ toFloat ft t = none
-
-/-- every token is a number for `float()` -/
-def Numeric (ft : FloatTable) (rows : List (List Str)) : Prop := ∀ r ∈ rows, ∀ t ∈ r, (toFloat ft t).isSome
-
-/-! ### facts about bodies -/
-
-theorem body_rows_len {c : Nat} {body : List Str} {rows : List (List Str)} (h : Body c body rows) :
-    ∀ r ∈ rows, r.length = c := by
-  induction h with
-  | nil => simp
-  | skip _ _ ih => exact ih
-  | row _ hl _ ih => intro r hr; simp only [List.mem_cons] at hr; rcases hr with rfl | hr; exact hl; exact ih r hr
-
-theorem body_length {c : Nat} {body : List Str} {rows : List (List Str)} (h : Body c body rows) :
-    rows.length ≤ body.length := by
-  induction h with
-  | nil => simp
-  | skip _ _ ih => simp; omega
-  | row _ _ _ ih => simp; omega
-
-theorem body_ne {c : Nat} {body : List Str} {rows : List (List Str)} (h : Body c body rows) (hr : rows ≠ []) : body ≠ [] := by
-  intro e; subst e
-  have := body_length h
-  cases rows with
-  | nil => exact hr rfl
-  | cons r rs => simp at this
-
-/-- the flat token sequence of the normal engine is the row-major flattening of the matrix -/
-theorem body_normalTokens (sb : Subs) {c : Nat} {body : List Str} {rows : List (List Str)} (h : Body c body rows) :
-    normalTokens sb .space body = rows.flatten := by
-  induction h with
-  | nil => rfl
-  | skip hs _ ih =>
-    simp only [normalTokens, List.flatMap_cons, lineTokens_skip sb .space hs, List.nil_append]
-    exact ih
-  | row hr _ _ ih =>
-    simp only [normalTokens, List.flatMap_cons, lineTokens_row sb hr, List.flatten_cons]
-    rw [← ih]; rfl
-
-/-- the sniffer's sample: one entry per data line, each counting `c` items whatever substitutions are active -/
-theorem body_sample {c : Nat} {body : List Str} {rows : List (List Str)} (h : Body c body rows) :
-    (body.filterMap sampleLine).length = rows.length ∧
-    ∀ l ∈ body.filterMap sampleLine, ∀ sb, (splitLine .space (applySubs sb l)).length = c := by
-  induction h with
-  | nil => simp
-  | skip hs _ ih => simp only [List.filterMap_cons, sampleLine_skip hs]; exact ih
-  | row hr hl _ ih =>
-    obtain ⟨l, h1, h2⟩ := sampleLine_row hr
-    simp only [List.filterMap_cons, h1, List.length_cons, List.mem_cons]
-    refine ⟨by omega, ?_⟩
-    intro x hx sb
-    rcases hx with rfl | hx
-    · rw [h2 sb, hl]
-    · exact ih.2 x hx sb
-
-theorem consistent_const (l : List Nat) (c : Nat) (hne : l ≠ []) (h : ∀ x ∈ l, x = c) : consistent l = some c := by
-  cases l with
-  | nil => exact absurd rfl hne
-  | cons n rest =>
-    have hn : n = c := h n (by simp)
-    subst hn
-    have : rest.all (· == n) = true := by
-      rw [List.all_eq_true]; intro x hx; simp [h x (by simp [hx])]
-    simp [consistent, this]
-
 /-! ### the window -/
 
 /-- what the two engines are given: the normal engine visits exactly the body; the numpy engine gets everything after the title
-and `max_rows = |body|` -/
+and `max_rows = |body|` (`Body`, `PlainData`, `Numeric` are defined in Lemmas/DataLemmas.lean) -/
 theorem C02_window (pre : List Str) (title : Str) (body after : List Str) (hb : body ≠ []) :
     bodyLines (pre ++ title :: (body ++ after)) pre.length (pre.length + body.length) = body ∧
     (pre ++ title :: (body ++ after)).drop (pre.length + 1) = body ++ after ∧
-    (pre.length + body.length) - pre.length = body.length := by
-  have hd : (pre ++ title :: (body ++ after)).drop (pre.length + 1) = body ++ after := by
-    rw [← List.drop_drop, List.drop_left]; rfl
-  refine ⟨?_, hd, by omega⟩
-  unfold bodyLines
-  simp only [hd]
-  have : pre.length < pre.length + body.length := by
-    cases body with
-    | nil => exact absurd rfl hb
-    | cons _ _ => simp
-  simp only [this, ↓reduceIte]
-  have : pre.length + body.length - pre.length = body.length := by omega
-  rw [this, List.take_left]
-
-/-! ### the sniffer on plain data -/
-
-theorem sniff_plain (sb : Subs) (pre : List Str) (title : Str) {body after : List Str} {c : Nat} {rows : List (List Str)}
-    (h : Body c body rows) (hr : rows ≠ []) :
-    (sniffColumns sb .space (pre ++ title :: (body ++ after)) pre.length (pre.length + body.length)).count = some c := by
-  unfold sniffColumns
-  simp only [(C02_window pre title body after (body_ne h hr)).1]
-  obtain ⟨hlen, hcnt⟩ := body_sample h
-  apply consistent_const
-  · intro e
-    have : ((body.filterMap sampleLine).take 21).length = 0 := by
-      have := congrArg List.length e
-      simpa using this
-    rw [List.length_take, hlen] at this
-    cases rows with
-    | nil => exact hr rfl
-    | cons r rs => simp at this
-  · intro x hx
-    simp only [List.mem_map] at hx
-    obtain ⟨l, hl, rfl⟩ := hx
-    exact hcnt l (List.mem_of_mem_take hl) sb
-
-theorem sniffTwice_plain (sb : Subs) (pre : List Str) (title : Str) {body after : List Str} {c : Nat} {rows : List (List Str)}
-    (h : Body c body rows) (hr : rows ≠ []) :
-    ∃ sb', sniffTwice sb .space (pre ++ title :: (body ++ after)) pre.length (pre.length + body.length) = (sb', some c) := by
-  unfold sniffTwice
-  simp only
-  split
-  · exact ⟨_, by rw [sniff_plain sb.dropHyphen pre title h hr]⟩
-  · exact ⟨_, by rw [sniff_plain sb pre title h hr]⟩
-
-/-! ### the numpy engine on plain data -/
-
-theorem npCollect_skip (c b : Nat) (ln : Str) (rest : List Str) (h : npTokens ln = []) :
-    npCollect c b (ln :: rest) = npCollect c b rest := by
-  cases b with
-  | zero => simp [npCollect]
-  | succ b => simp [npCollect, h]
-
-theorem npCollect_zero (c : Nat) (l : List Str) : npCollect c 0 l = some [] := by
-  cases l <;> rfl
-
-theorem npCollect_nil (c b : Nat) : npCollect c b [] = some [] := by
-  cases b <;> rfl
-
-/-- a line with tokens: an error, or one more row -/
-theorem npCollect_next (c k : Nat) (ln : Str) (rest : List Str) (t : Str) (ts : List Str) (h : npTokens ln = t :: ts) :
-    npCollect c (k + 1) (ln :: rest) = none ∨ ∃ rows2, npCollect c (k + 1) (ln :: rest) = some ((t :: ts) :: rows2) := by
-  simp only [npCollect, h, List.isEmpty_cons, Bool.false_eq_true, ↓reduceIte]
-  by_cases hl : ((t :: ts).length != c) = true
-  · left; rw [if_pos hl]
-  · rw [if_neg hl]
-    cases npCollect c k rest with
-    | none => left; rfl
-    | some r => right; exact ⟨r, rfl⟩
-
-/-- genfromtxt over the body: the rows, then it goes on with the remaining budget -/
-theorem body_npCollect {c : Nat} (hc : 0 < c) {body : List Str} {rows : List (List Str)} (h : Body c body rows)
-    (after : List Str) (k : Nat) :
-    npCollect c (rows.length + k) (body ++ after) = (npCollect c k after).map (rows ++ ·) := by
-  induction h with
-  | nil => simp
-  | skip hs _ ih => rw [List.cons_append, npCollect_skip _ _ _ _ (npTokens_skip hs)]; exact ih
-  | @row ln toks ls rows' hr hl _ ih =>
-    have e : (toks :: rows').length + k = (rows'.length + k) + 1 := by simp; omega
-    rw [List.cons_append, e]
-    have hne : toks.isEmpty = false := by
-      cases toks with
-      | nil => simp at hl; omega
-      | cons _ _ => rfl
-    simp only [npCollect, npTokens_row hr, hne, Bool.false_eq_true, ↓reduceIte, hl, bne_self_eq_false]
-    rw [ih]
-    cases npCollect c k after <;> simp
-
-theorem body_npFirstCount {c : Nat} (hc : 0 < c) {body : List Str} {rows : List (List Str)} (h : Body c body rows)
-    (hr : rows ≠ []) (after : List Str) : npFirstCount (body ++ after) = some c := by
-  induction h with
-  | nil => exact absurd rfl hr
-  | skip hs _ ih => simp only [List.cons_append, npFirstCount, npTokens_skip hs]; exact ih hr
-  | @row ln toks ls rows' hrow hl _ _ =>
-    have hne : toks.isEmpty = false := by
-      cases toks with
-      | nil => simp at hl; omega
-      | cons _ _ => rfl
-    simp [npFirstCount, npTokens_row hrow, hne, hl]
-
-/-- the numpy engine gives the matrix columns, or raises; it never gives anything else -/
-theorem numpy_plain {ft : FloatTable} {body after : List Str} {c : Nat} {rows : List (List Str)} (h : PlainData ft body after c rows) :
-    numpyEngineLines ft body.length (body ++ after) = some (matrixColumns ft c rows) ∨
-    numpyEngineLines ft body.length (body ++ after) = none := by
-  have hb := body_ne h.body h.rne
-  have hm : ¬ body.length < 1 := by
-    cases body with
-    | nil => exact absurd rfl hb
-    | cons _ _ => simp
-  obtain ⟨k, hk⟩ : ∃ k, body.length = rows.length + k := ⟨body.length - rows.length, by have := body_length h.body; omega⟩
-  unfold numpyEngineLines
-  simp only [hm, ↓reduceIte, body_npFirstCount h.cpos h.body h.rne after]
-  rw [hk, body_npCollect h.cpos h.body after k]
-  have fin : ∀ rows2, allFloatCols ft (columnsOf c (rows ++ rows2)) = none ∨ rows2 = [] →
-      (match (some (rows ++ rows2) : Option (List (List Str))) with
-        | none => (none : Option (List Column))
-        | some rws => allFloatCols ft (columnsOf c rws)) = some (matrixColumns ft c rows) ∨
-      (match (some (rows ++ rows2) : Option (List (List Str))) with
-        | none => (none : Option (List Column))
-        | some rws => allFloatCols ft (columnsOf c rws)) = none := by
-    intro rows2 h2
-    simp only
-    rcases h2 with h2 | rfl
-    · exact Or.inr h2
-    · simp only [List.append_nil]
-      cases hall : allFloatCols ft (columnsOf c rows) with
-      | none => exact Or.inr rfl
-      | some out => left; rw [allFloatCols_eq ft _ out hall, matrixColumns_eq]
-  cases k with
-  | zero =>
-    rw [npCollect_zero]
-    exact fin [] (Or.inr rfl)
-  | succ k =>
-    rcases h.next with rfl | ⟨ln, rest, t, ts, rfl, htok, hnf⟩
-    · rw [npCollect_nil]
-      exact fin [] (Or.inr rfl)
-    · rcases npCollect_next c k ln rest t ts htok with hx | ⟨rows2, hx⟩
-      · rw [hx]; right; rfl
-      · rw [hx]
-        simp only [Option.map_some]
-        apply fin
-        left
-        have hcol : columnOf (rows ++ (t :: ts) :: rows2) 0 ∈ columnsOf c (rows ++ (t :: ts) :: rows2) := by
-          simp only [columnsOf, List.mem_map, List.mem_range]
-          exact ⟨0, h.cpos, rfl⟩
-        apply allFloatCols_none_of_mem ft _ _ t hcol _ hnf
-        simp only [columnOf, List.mem_map]
-        exact ⟨t :: ts, by simp, rfl⟩
-
-/-- no blank/comment line in the body, or nothing after the window, and numeric tokens: genfromtxt succeeds -/
-theorem numpy_plain_ok {ft : FloatTable} {body after : List Str} {c : Nat} {rows : List (List Str)} (h : PlainData ft body after c rows)
-    (hnum : Numeric ft rows) (hpath : body.length = rows.length ∨ after = []) :
-    numpyEngineLines ft body.length (body ++ after) = some (matrixColumns ft c rows) := by
-  have hb := body_ne h.body h.rne
-  have hm : ¬ body.length < 1 := by
-    cases body with
-    | nil => exact absurd rfl hb
-    | cons _ _ => simp
-  obtain ⟨k, hk⟩ : ∃ k, body.length = rows.length + k := ⟨body.length - rows.length, by have := body_length h.body; omega⟩
-  have hcoll : npCollect c (rows.length + k) (body ++ after) = some rows := by
-    rw [body_npCollect h.cpos h.body after k]
-    rcases hpath with hp | rfl
-    · have : k = 0 := by omega
-      subst this; rw [npCollect_zero]; simp
-    · rw [npCollect_nil]; simp
-  unfold numpyEngineLines
-  simp only [hm, ↓reduceIte, body_npFirstCount h.cpos h.body h.rne after]
-  rw [hk, hcoll]
-  simp only
-  rw [matrixColumns_eq]
-  apply allFloatCols_of_all
-  intro col hcol t ht
-  simp only [columnsOf, List.mem_map, List.mem_range] at hcol
-  obtain ⟨j, hj, rfl⟩ := hcol
-  simp only [columnOf, List.mem_map] at ht
-  obtain ⟨r, hr', rfl⟩ := ht
-  have hl := body_rows_len h.body r hr'
-  have : r.getD j [] ∈ r := by
-    rw [List.getD_eq_getElem?_getD, List.getElem?_eq_getElem (by omega)]
-    simp
-  exact hnum r hr' _ this
-
-/-- a blank/comment line in the body and a following section: genfromtxt raises -/
-theorem numpy_plain_raises {ft : FloatTable} {body after : List Str} {c : Nat} {rows : List (List Str)}
-    (h : PlainData ft body after c rows) (hskip : rows.length < body.length) (hafter : after ≠ []) :
-    numpyEngineLines ft body.length (body ++ after) = none := by
-  have hm : ¬ body.length < 1 := by omega
-  obtain ⟨k, hk⟩ : ∃ k, body.length = rows.length + (k + 1) := ⟨body.length - rows.length - 1, by omega⟩
-  unfold numpyEngineLines
-  simp only [hm, ↓reduceIte, body_npFirstCount h.cpos h.body h.rne after]
-  rw [hk, body_npCollect h.cpos h.body after (k + 1)]
-  rcases h.next with rfl | ⟨ln, rest, t, ts, rfl, htok, hnf⟩
-  · exact absurd rfl hafter
-  · rcases npCollect_next c k ln rest t ts htok with hx | ⟨rows2, hx⟩
-    · rw [hx]; rfl
-    · rw [hx]
-      simp only [Option.map_some]
-      have hcol : columnOf (rows ++ (t :: ts) :: rows2) 0 ∈ columnsOf c (rows ++ (t :: ts) :: rows2) := by
-        simp only [columnsOf, List.mem_map, List.mem_range]
-        exact ⟨0, h.cpos, rfl⟩
-      apply allFloatCols_none_of_mem ft _ _ t hcol _ hnf
-      simp only [columnOf, List.mem_map]
-      exact ⟨t :: ts, by simp, rfl⟩
-
-/-! ### the normal engine on plain data -/
-
-theorem normal_plain (ft : FloatTable) (sb : Subs) {body : List Str} {c : Nat} {rows : List (List Str)}
-    (h : Body c body rows) (hc : 0 < c) (hr : rows ≠ []) :
-    normalEngineLines ft sb .space c body = .ok (matrixColumns ft c rows) :=
-  C07_binding ft sb .space body rows c hc hr (body_rows_len h) (body_normalTokens sb h)
+    (pre.length + body.length) - pre.length = body.length :=
+  window_plain pre title body after hb
 
 /-- On the body given explicitly both engines give the r × c token matrix (numeric tokens, `n_columns = c`,
 `max_rows ≥ r`). -/
@@ -340,14 +50,6 @@ theorem C02_engines_agree_body (ft : FloatTable) (sb : Subs) {body : List Str} {
 
 /-! ### `readData` -/
 
-/-- the curves `readData` builds from the matrix -/
-def plainResult (ft : FloatTable) (p : NullPolicy) (st : Steer) (d c : Nat) (rows : List (List Str)) : List (Slot × Column) :=
-  assignCurves d (applyNull (p == .strict) st.nullValue (matrixColumns ft c rows))
-
-theorem readerColumns_plain (st : Steer) (d c : Nat) (hw : st.wrapped ≠ yesTxt) : readerColumns st d (some c) = c := by
-  have : (st.wrapped == yesTxt) = false := by simpa using hw
-  simp [readerColumns, this]
-
 /-- the normal engine's end result on plain data (WRAP ≠ YES) -/
 theorem C02_normal_value (ft : FloatTable) (e : Engine) (p : NullPolicy) (st : Steer) (d : Nat) (pre : List Str) (title : Str)
     {body after : List Str} {c : Nat} {rows : List (List Str)} (h : PlainData ft body after c rows)
@@ -359,7 +61,7 @@ theorem C02_normal_value (ft : FloatTable) (e : Engine) (p : NullPolicy) (st : S
   unfold readData
   simp only [hdlm, hs, heng, readerColumns_plain st d c hw]
   unfold normalEngine
-  rw [(C02_window pre title body after (body_ne h.body h.rne)).1, normal_plain ft sb' h.body h.cpos h.rne]
+  rw [(window_plain pre title body after (body_ne h.body h.rne)).1, normal_plain ft sb' h.body h.cpos h.rne]
   rfl
 
 /-- **Engines agree**: on plain data the default fast engine and the pure-Python engine give the same curves. -/
@@ -390,7 +92,7 @@ theorem C02_engines_agree (ft : FloatTable) (p : NullPolicy) (st : Steer) (d : N
     unfold readData
     simp only [hdlm, hs, hnp, readerColumns_plain st d c hw]
     unfold numpyEngine normalEngine
-    obtain ⟨hw1, hw2, hw3⟩ := C02_window pre title body after (body_ne h.body h.rne)
+    obtain ⟨hw1, hw2, hw3⟩ := window_plain pre title body after (body_ne h.body h.rne)
     rw [hw1, hw2, hw3, normal_plain ft sb' h.body h.cpos h.rne]
     rcases numpy_plain h with hnpy | hnpy <;> rw [hnpy] <;> rfl
 
@@ -409,7 +111,7 @@ theorem C02_numpy_path (ft : FloatTable) (st : Steer) (d : Nat) (pre : List Str)
   unfold readData
   simp only [hdlm, hs, hnp]
   unfold numpyEngine
-  obtain ⟨_, hw2, hw3⟩ := C02_window pre title body after (body_ne h.body h.rne)
+  obtain ⟨_, hw2, hw3⟩ := window_plain pre title body after (body_ne h.body h.rne)
   rw [hw2, hw3, numpy_plain_ok h hnum hpath]
   rfl
 
@@ -422,7 +124,7 @@ theorem C02_fallback (ft : FloatTable) (st : Steer) (d : Nat) (pre : List Str) (
     numpyEngine ft (pre ++ title :: (body ++ after)) pre.length (pre.length + body.length) = none ∧
     readData ⟨.numpy, .strict⟩ (pre ++ title :: (body ++ after)) pre.length (pre.length + body.length) st d ft =
       .ok (.normal, plainResult ft .strict st d c rows) := by
-  obtain ⟨hw1, hw2, hw3⟩ := C02_window pre title body after (body_ne h.body h.rne)
+  obtain ⟨hw1, hw2, hw3⟩ := window_plain pre title body after (body_ne h.body h.rne)
   have hraise : numpyEngine ft (pre ++ title :: (body ++ after)) pre.length (pre.length + body.length) = none := by
     unfold numpyEngine
     rw [hw2, hw3]
@@ -438,4 +140,102 @@ theorem C02_fallback (ft : FloatTable) (st : Steer) (d : Nat) (pre : List Str) (
   rw [hw1, normal_plain ft sb' h.body h.cpos h.rne]
   rfl
 
+/-! ### plain decimal numbers are in the domain -/
+
+/-- The read substitutions (any subset of them) are the identity on a plain decimal token: characters `0-9 + - . e E`, at most
+one `.`, no digit immediately before a `-`. -/
+theorem subs_id_on_plain (sb : Subs) (t : Str) (h : simplePlain t = true) : applySubs sb t = t :=
+  applySubs_core sb (Core.one (quietTok_of_simple t h))
+
+/-- every plain decimal number `[+-]?(\d+\.?\d*|\.\d+)([eE][+-]?\d+)?` (recognised by the automaton `isPlainDecimal`, which the
+harness compares with lasio's `numeric_literal_regex.fullmatch`) is a quiet token: the read substitutions leave it alone -/
+theorem C02_plain_decimal_quiet (t : Str) (h : isPlainDecimal t = true) : QuietTok t ∧ ∀ sb, applySubs sb t = t :=
+  ⟨quietTok_of_simple t (simplePlain_of_grammar t h), fun sb => subs_id_on_plain sb t (simplePlain_of_grammar t h)⟩
+
+/-- the spellings the property text lists, and some more -/
+example : ∀ t ∈ ["5", "5.", ".5", "+3", "-4e2", "1E+2", "-999.25", "-9.9925E2", "007", "1e-3", "-.5", "6.02e+23"].map String.toList,
+    simplePlain t = true := by decide
+
+/-- dates and run-on numbers are outside the domain: a substitution fires -/
+example : simplePlain "2018-05-22".toList = false ∧ simplePlain "1.5-2.5".toList = false ∧ simplePlain "1.2.3".toList = false := by
+  decide
+
+/-! ### non-vacuity and necessity of the hypotheses -/
+
+def c02s (s : String) : Str := s.toList
+
+def ft4 : FloatTable := [(c02s "1", c02s "a1"), (c02s "2", c02s "a2"), (c02s "3", c02s "a3"), (c02s "4", c02s "a4")]
+
+/-- `"1 2\n"`, a blank line, `" 3\t4 \r\n"`: a plain body with rows [1,2],[3,4] -/
+theorem C02_example_body : Body 2 [c02s "1 2\n", c02s "\n", c02s " 3\t4 \r\n"] [[c02s "1", c02s "2"], [c02s "3", c02s "4"]] := by
+  apply Body.row (toks := [c02s "1", c02s "2"])
+  · exact ⟨[], c02s "1 2", c02s "\n", allWs_dec _ (by decide), allWs_dec _ (by decide),
+      Core.cons (t := c02s "1") (sep := c02s " ") (quiet_digit "1" (by decide)) (by decide) (allWs_dec _ (by decide))
+        (Core.one (quiet_digit "2" (by decide))), rfl⟩
+  · rfl
+  apply Body.skip
+  · exact Or.inl (allWs_dec _ (by decide))
+  apply Body.row (toks := [c02s "3", c02s "4"])
+  · exact ⟨c02s " ", c02s "3\t4", c02s " \r\n", allWs_dec _ (by decide), allWs_dec _ (by decide),
+      Core.cons (t := c02s "3") (sep := c02s "\t") (quiet_digit "3" (by decide)) (by decide) (allWs_dec _ (by decide))
+        (Core.one (quiet_digit "4" (by decide))), rfl⟩
+  · rfl
+  exact Body.nil
+
+/-- the domain is inhabited: the body above as the last section of the file … -/
+theorem C02_example_last : PlainData ft4 [c02s "1 2\n", c02s "\n", c02s " 3\t4 \r\n"] [] 2 [[c02s "1", c02s "2"], [c02s "3", c02s "4"]] :=
+  ⟨C02_example_body, by decide, by decide, Or.inl rfl⟩
+
+/-- … and followed by a ~P section -/
+theorem C02_example_inner :
+    PlainData ft4 [c02s "1 2\n", c02s "\n", c02s " 3\t4 \r\n"] [c02s "~P\n", c02s "X. 5 : d\n"] 2 [[c02s "1", c02s "2"], [c02s "3", c02s "4"]] :=
+  ⟨C02_example_body, by decide, by decide, Or.inr ⟨c02s "~P\n", [c02s "X. 5 : d\n"], c02s "~P", [], rfl, by rfl, by rfl⟩⟩
+
+def stNo : Steer := ⟨true, c02s "NO", none, .space⟩
+
+/-- last section with a blank line: the numpy engine itself answers (instance of `C02_numpy_path`) -/
+example : readData ⟨.numpy, .strict⟩ ([c02s "~V\n"] ++ c02s "~A\n" :: ([c02s "1 2\n", c02s "\n", c02s " 3\t4 \r\n"] ++ [])) 1 (1 + 3) stNo 2 ft4 =
+    .ok (.numpy, [(.declared 0, .floats [c02s "a1", c02s "a3"]), (.declared 1, .floats [c02s "a2", c02s "a4"])]) :=
+  C02_numpy_path ft4 stNo 2 [c02s "~V\n"] (c02s "~A\n") C02_example_last (by unfold Numeric; decide) rfl (by decide) (Or.inr rfl)
+
+/-- the same body followed by ~P: genfromtxt raises, the normal engine answers — the silent fallback inside the domain
+(instance of `C02_fallback`; so `body.length = rows.length ∨ after = []` is necessary in `C02_numpy_path`) -/
+theorem C02_numpy_path_needs_hypothesis :
+    readData ⟨.numpy, .strict⟩ ([c02s "~V\n"] ++ c02s "~A\n" :: ([c02s "1 2\n", c02s "\n", c02s " 3\t4 \r\n"] ++ [c02s "~P\n", c02s "X. 5 : d\n"]))
+      1 (1 + 3) stNo 2 ft4 =
+    .ok (.normal, [(.declared 0, .floats [c02s "a1", c02s "a3"]), (.declared 1, .floats [c02s "a2", c02s "a4"])]) :=
+  (C02_fallback ft4 stNo 2 [c02s "~V\n"] (c02s "~A\n") C02_example_inner rfl (by decide) (by decide) (by decide)).2
+
+/-- `Numeric` is necessary in `C02_numpy_path`: a text cell makes genfromtxt raise (the curves still agree) -/
+theorem C02_numeric_needed :
+    readData ⟨.numpy, .strict⟩ [c02s "~A\n", c02s "1 abc\n"] 0 1 stNo 2 ft4 =
+      .ok (.normal, [(.declared 0, .floats [c02s "a1"]), (.declared 1, .text [c02s "abc"])]) := by rfl
+
+/-- `PlainData.next` is necessary in `C02_engines_agree`: if the line after the window were one more numeric row (impossible for a
+window computed by `find_sections_in_file`, which ends right before a `~` line) genfromtxt would read it after a blank line -/
+theorem C02_next_needed :
+    readData ⟨.numpy, .strict⟩ [c02s "~A\n", c02s "1 2\n", c02s "\n", c02s "3 4\n"] 0 2 stNo 2 ft4 =
+      .ok (.numpy, [(.declared 0, .floats [c02s "a1", c02s "a3"]), (.declared 1, .floats [c02s "a2", c02s "a4"])]) ∧
+    readData ⟨.normal, .strict⟩ [c02s "~A\n", c02s "1 2\n", c02s "\n", c02s "3 4\n"] 0 2 stNo 2 ft4 =
+      .ok (.normal, [(.declared 0, .floats [c02s "a1"]), (.declared 1, .floats [c02s "a2"])]) := ⟨by rfl, by rfl⟩
+
+/-- zero rows are outside the domain (`rne`): on a data section without any data line genfromtxt returns one EMPTY column, so with
+no declared curve the numpy engine adds an unnamed empty curve and the normal engine adds none -/
+theorem C02_rows_needed :
+    readData ⟨.numpy, .strict⟩ [c02s "~A\n", c02s "\n"] 0 1 stNo 0 ft4 = .ok (.numpy, [(.extra, .floats [])]) ∧
+    readData ⟨.normal, .strict⟩ [c02s "~A\n", c02s "\n"] 0 1 stNo 0 ft4 = .ok (.normal, []) := ⟨by rfl, by rfl⟩
+
 end Lasio.Dt
+
+#print axioms Lasio.Dt.C02_window
+#print axioms Lasio.Dt.C02_engines_agree_body
+#print axioms Lasio.Dt.C02_normal_value
+#print axioms Lasio.Dt.C02_engines_agree
+#print axioms Lasio.Dt.C02_numpy_path
+#print axioms Lasio.Dt.C02_fallback
+#print axioms Lasio.Dt.subs_id_on_plain
+#print axioms Lasio.Dt.C02_plain_decimal_quiet
+#print axioms Lasio.Dt.C02_numpy_path_needs_hypothesis
+#print axioms Lasio.Dt.C02_numeric_needed
+#print axioms Lasio.Dt.C02_next_needed
+#print axioms Lasio.Dt.C02_rows_needed
